@@ -532,7 +532,9 @@ theorem C03_model_tick (a : Agent) (now : Nat) :
     (a.controlling = true → a.contactCandidates now =
       if a.selected.isSome then
         (if (a.validateSelected now).2.2 then
-          (((a.validateSelected now).1.keepalive now).1, (a.validateSelected now).2.1 ++ ((a.validateSelected now).1.keepalive now).2)
+          ((((a.validateSelected now).1.keepalive now).1.autoRenom now).1,
+           (a.validateSelected now).2.1 ++ ((a.validateSelected now).1.keepalive now).2 ++
+             (((a.validateSelected now).1.keepalive now).1.autoRenom now).2)
          else ((a.validateSelected now).1, (a.validateSelected now).2.1))
       else match a.nominatedPair.bind a.pairById with
         | some p => a.nominate now p
